@@ -763,6 +763,77 @@ func checkProperty(prop, tier string, seed uint64, runs, budget, workers int, re
 		}(wi)
 	}
 	wg.Wait()
+	// ---- lane C (cold starts), race flavour only: package-level state that is initialised lazily and without
+	// synchronisation races only while it is still untouched, i.e. in the first library calls of a process. Every case
+	// of this lane is executed in a fresh worker process and runs its concurrent phase first. Case indices start at
+	// coldBase, so the cases are a function of (seed, index) like all others.
+	coldRuns := 0
+	if in.Flavor == "race" && replay == "" {
+		n := 32
+		coldBudget := 15 * time.Second
+		if tier == "thorough" {
+			n, coldBudget = 3000, 180*time.Second
+		}
+		if os.Getenv("VERIF_COLD_RUNS") != "" {
+			n, _ = strconv.Atoi(os.Getenv("VERIF_COLD_RUNS"))
+		}
+		cdl := time.Now().Add(coldBudget)
+		var next int64 = -1
+		var cwg sync.WaitGroup
+		for wi := 0; wi < workers; wi++ {
+			cwg.Add(1)
+			go func(wi int) {
+				defer cwg.Done()
+				for {
+					mu.Lock()
+					next++
+					j := next
+					mu.Unlock()
+					if j >= int64(n) || time.Now().After(cdl) {
+						return
+					}
+					i := coldBase + uint64(j)
+					wtmp := filepath.Join(tmp, fmt.Sprintf("cold%d", j))
+					os.MkdirAll(wtmp, 0o755)
+					cmd := exec.Command(bi.Worker, "run", "--prop", prop, "--seed", fmt.Sprint(seed), "--tier", tier,
+						"--from", fmt.Sprint(i), "--step", "1", "--count", "1", "--cold", "--tmp", wtmp)
+					cmd.Env = append(os.Environ(), workerEnv(wtmp, true)...)
+					var stderr bytes.Buffer
+					cmd.Stderr = &stderr
+					out, err := cmd.Output()
+					os.RemoveAll(wtmp)
+					mu.Lock()
+					if err != nil {
+						crashed = append(crashed, fmt.Sprintf("cold run %d: %v\n%s", i, err, tail(stderr.String(), 20)))
+					}
+					for _, ln := range bytes.Split(out, []byte("\n")) {
+						var l wline
+						if len(ln) == 0 || json.Unmarshal(ln, &l) != nil {
+							continue
+						}
+						switch l.T {
+						case "run":
+							evaluations++
+							coldRuns++
+							fps[l.FP] = true
+							if l.NT {
+								nontrivial[l.FP] = true
+							}
+							for _, v := range l.Viol {
+								founds = append(founds, found{l.Run, l.Case, v})
+							}
+						case "stats":
+							agg.Add(l.Stats)
+						case "infra":
+							crashed = append(crashed, fmt.Sprintf("cold run %d: %s", l.Run, l.Msg))
+						}
+					}
+					mu.Unlock()
+				}
+			}(wi)
+		}
+		cwg.Wait()
+	}
 	if len(crashed) > 0 {
 		infra("worker trouble:\n%s", strings.Join(crashed, "\n"))
 	}
@@ -873,6 +944,7 @@ func checkProperty(prop, tier string, seed uint64, runs, budget, workers int, re
 		"map_seam":               bi.MapSeam,
 		"real_vs_stub":           in.RealVsStub,
 		"known_findings_printed": knownList,
+		"cold_start_runs":        coldRuns,
 		"exhaustive":             false,
 		"tree":                   hashTree(),
 	}
@@ -1082,6 +1154,9 @@ func waitBounded(cmd *exec.Cmd, limit time.Duration) (exceeded bool) {
 		}
 	}
 }
+
+// coldBase is the first case index of the cold-start lane.
+const coldBase = uint64(5_000_000)
 
 // livenessProps: properties whose statement includes termination.
 var livenessProps = map[string]bool{"C06": true}
